@@ -633,6 +633,14 @@ def C15(chk):
         # beyond the listed properties: the UNICODE_VERSION generator against Version.tla (disagreements are notes, not C15 violations)
         cfgv = "SPECIFICATION Spec\nCONSTANTS\n  MaxLen = %d\nINVARIANT Laws\nINVARIANT Emit\nCHECK_DEADLOCK FALSE\n" % (5 if q else 6)
         mcv = plain_mc(chk, "MC_Version", "c15-version", cfgv, workers=4)
+        # vacuity guard: a digit standing where the dot is expected IS reachable in the model (the reading that makes the
+        # permissive dots matter); TLC must find it
+        gv = run_mc("MC_Version", "SPECIFICATION Spec\nCONSTANTS\n  MaxLen = 5\nINVARIANT NoDigitSeparator\nCHECK_DEADLOCK FALSE\n", "c15-version-vac",
+                    workers=2, expect_violation="NoDigitSeparator")
+        if os.path.exists(gv.replay_path):
+            os.remove(gv.replay_path)
+        if not gv.res.violated:
+            tool_error("vacuity guard: no text of the model is read with a digit as separator")
         if mcv:
             replay_as_notes(chk, mcv, "MC_Version (every text over 6 characters up to length %d) x 3 surroundings" % (5 if q else 6))
     finally:
